@@ -249,6 +249,14 @@ impl<const PW: u8, const G: i8> async_device::radio::PhyRxTx for AsRadio<PW, G> 
             l.rx_cont_queue[phase].pop_front()
         };
         match next {
+            // an empty entry of the script: the radio reports an error (a frame with a bad CRC or header
+            // overheard on the RX2 channel, say)
+            Some(f) if f.is_empty() => {
+                let mut l = self.log.borrow_mut();
+                l.ev.push(Ev::RxContinuous);
+                l.ev.push(Ev::Fault("rx_continuous"));
+                Err(RadioErr("rx_continuous"))
+            }
             Some(f) => {
                 self.log.borrow_mut().ev.push(Ev::RxContinuous);
                 radio_call(&self.log, "rx_continuous")?;
@@ -389,7 +397,8 @@ impl Resp {
 /// What the network does during the receive opportunities of one transaction.
 #[derive(Clone, Debug, Default)]
 pub struct Script {
-    /// Class C frames heard before RX1 opens (async+classC only).
+    /// Class C frames heard before RX1 opens (async+classC only); an empty frame stands for a receive error
+    /// reported by the radio (also in `between`).
     pub pre_rx1: Vec<Vec<u8>>,
     /// Frames heard in RX1, in order (nb: all delivered until the window closes; async: only
     /// the first, one `rx_single` result per window).
